@@ -13,16 +13,19 @@ import (
 	"sort"
 
 	ocispec "github.com/opencontainers/image-spec/specs-go/v1"
+	"net/http"
 	oras "oras.land/oras-go/v2"
 	"oras.land/oras-go/v2/content"
 	"oras.land/oras-go/v2/content/file"
 	"oras.land/oras-go/v2/content/memory"
 	"oras.land/oras-go/v2/content/oci"
+	"oras.land/oras-go/v2/registry/remote"
 	"pgregory.net/rapid"
 
 	"verif/harness/fsx"
 	"verif/harness/gen"
 	"verif/harness/inst"
+	"verif/harness/regmodel"
 	"verif/harness/vt"
 )
 
@@ -46,6 +49,14 @@ type Case struct {
 	FilterOrder  int    `json:"filterOrder,omitempty"` // 0: AT then Ann, 1: Ann then AT
 	// callbacks
 	Callbacks bool `json:"callbacks,omitempty"`
+	// remote kinds: capability profiles of the registry models and client options
+	SrcProfile regmodel.Profile `json:"srcProfile,omitempty"`
+	DstProfile regmodel.Profile `json:"dstProfile,omitempty"`
+	RefPage    int              `json:"refPage,omitempty"`
+	// StaleRef >= 0: after the source was populated, this referrer manifest is removed
+	// from the source registry WITHOUT updating the referrers index (a stale entry)
+	StaleRef int  `json:"staleRef,omitempty"`
+	HasStale bool `json:"hasStale,omitempty"`
 	// PreCancel: the context is already cancelled when the call is made.
 	PreCancel bool   `json:"preCancel,omitempty"`
 	TarFmt    string `json:"tarFmt,omitempty"`
@@ -61,9 +72,11 @@ type Env struct {
 	Dir     string
 	Rec     *inst.Recorder
 	Src     any // wrapped source
-	Dst     *inst.GraphTarget
+	Dst     oras.Target
 	RawDst  inst.RWStore
 	RawSrc  inst.ROStore
+	SrcReg  *regmodel.Registry
+	DstReg  *regmodel.Registry
 	closers []func()
 }
 
@@ -114,6 +127,13 @@ func Setup(c *Case) (*Env, *vt.Fail) {
 	if srcBase == "oci-ro" || srcBase == "oci-tar" {
 		srcBase = "oci"
 	}
+	if c.SrcKind == "remote" {
+		if f := e.setupRemoteSource(ctx); f != nil {
+			e.Close()
+			return nil, f
+		}
+		return e.setupDst(ctx)
+	}
 	rawSrc, cl, err := newRW(srcBase, filepath.Join(e.Dir, "src"))
 	if err != nil {
 		e.Close()
@@ -163,6 +183,93 @@ func Setup(c *Case) (*Env, *vt.Fail) {
 	default:
 		e.RawSrc = rawSrc
 		e.Src = inst.WrapRW(rawSrc, e.Rec, "src")
+	}
+	return e.setupDst(ctx)
+}
+
+func newRepo(host, name string, reg *regmodel.Registry) (*remote.Repository, error) {
+	repo, err := remote.NewRepository(host + "/" + name)
+	if err != nil {
+		return nil, err
+	}
+	repo.Client = &http.Client{Transport: reg}
+	return repo, nil
+}
+
+// setupRemoteSource populates a registry model through a Repository client
+// (children first, so that the client maintains referrers indexes itself when the
+// profile has no Referrers API) and tags the root.
+func (e *Env) setupRemoteSource(ctx context.Context) *vt.Fail {
+	c, d := e.C, e.D
+	reg := regmodel.New("src.test", c.SrcProfile)
+	reg.Repo("src/repo")
+	repo, err := newRepo("src.test", "src/repo", reg)
+	if err != nil {
+		return vt.Failf("harness/src-repo", "%v", err)
+	}
+	for _, id := range d.CanonIDs() {
+		n := d.Nodes[id]
+		if n.Spec.Absent {
+			continue
+		}
+		if err := gen.PushNode(ctx, repo, n); err != nil && !isDup(err) {
+			return vt.Failf("harness/src-push", "node %d: %v", id, err)
+		}
+	}
+	root := d.Nodes[d.Nodes[c.Root].Canon]
+	if d.IsManifest(root.ID) {
+		if err := repo.Tag(ctx, root.Desc, SrcRef); err != nil {
+			return vt.Failf("harness/src-tag", "%v", err)
+		}
+	}
+	if c.HasStale {
+		n := d.Nodes[d.Nodes[c.StaleRef].Canon]
+		reg.Lock()
+		delete(reg.Repos["src/repo"].Manifests, n.Desc.Digest.String())
+		reg.Unlock()
+	}
+	// a fresh client for the copy (capability detection starts over)
+	repo2, _ := newRepo("src.test", "src/repo", reg)
+	repo2.ReferrerListPageSize = c.RefPage
+	reg.Lock()
+	reg.Log, reg.Violations = nil, nil
+	reg.Unlock()
+	e.SrcReg = reg
+	e.RawSrc = repo2
+	e.Src = repo2
+	return nil
+}
+
+func (e *Env) setupDst(ctx context.Context) (*Env, *vt.Fail) {
+	c, d := e.C, e.D
+	if c.DstKind == "remote" {
+		reg := regmodel.New("dst.test", c.DstProfile)
+		reg.Repo("dst/repo")
+		repo, err := newRepo("dst.test", "dst/repo", reg)
+		if err != nil {
+			e.Close()
+			return nil, vt.Failf("harness/dst-repo", "%v", err)
+		}
+		pre := append([]int(nil), c.Pre...)
+		sort.Ints(pre)
+		for _, id := range pre {
+			n := d.Nodes[d.Nodes[id].Canon]
+			if n.Spec.Absent {
+				continue
+			}
+			if err := gen.PushNode(ctx, repo, n); err != nil && !isDup(err) {
+				e.Close()
+				return nil, vt.Failf("harness/dst-prepush", "node %d: %v", id, err)
+			}
+		}
+		repo2, _ := newRepo("dst.test", "dst/repo", reg)
+		reg.Lock()
+		reg.Log, reg.Violations = nil, nil
+		reg.Unlock()
+		e.DstReg = reg
+		e.RawDst = repo2
+		e.Dst = repo2
+		return e, nil
 	}
 	rawDst, cl2, err := newRW(c.DstKind, filepath.Join(e.Dir, "dst"))
 	if err != nil {
